@@ -285,7 +285,9 @@ func cmdCheck(args []string) int {
 			"clause": o.Note, "goal": clip(o.Goal.String(), 4000), "model": o.Model, "model_from_quantifier_free_relaxation": o.Relaxed,
 			"replayed_on_real_code": false,
 		})
-		if o.Model != nil && !o.Relaxed {
+		// (a model of the quantifier-free relaxation is only a candidate input; a replay is believed only when the real run
+		// confirms it, so trying it costs nothing)
+		if o.Model != nil {
 			if ok, detail := tryReplay(p, id, o, rp); ok {
 				suffix = ""
 				_ = detail
@@ -393,6 +395,17 @@ func cmdCheck(args []string) int {
 	if replayRuns != nil {
 		cov["regression_replays_on_real_code"] = replayRuns
 	}
+	{
+		// which of this property's functions a solver counterexample can be replayed on automatically (flat signatures;
+		// engine/autoreplay.go) - for the others a violation line ends with no-failing-input-found
+		var auto []string
+		for _, k := range keys {
+			if fc := p.Specs.Contracts[k]; fc != nil && !fc.Trusted && !fc.Inline && autoReplayable(p.Funcs[k]) {
+				auto = append(auto, k)
+			}
+		}
+		cov["counterexample_replay_automatic_for"] = auto
+	}
 	if id == "C20" || id == "C10" {
 		// entry points carrying the pending marker (<id>x) are not claimed: list them, never count them
 		var unclaimed []string
@@ -483,7 +496,7 @@ func tryReplay(p *Program, id string, o *Obligation, replayPath string) (bool, s
 	if d := replayDrivers[o.Func]; d != nil {
 		return d(p, id, o, replayPath)
 	}
-	return false, ""
+	return autoReplay(p, id, o, replayPath)
 }
 
 var replayDrivers = map[string]func(p *Program, id string, o *Obligation, replayPath string) (bool, string){}
